@@ -185,7 +185,7 @@ pub fn step<S: Subject>(m: &S, model: &mut FlatModel, t: &mut Tape, cx: &mut Cx)
                 _ => t.idx(count + 2),
             };
             let data = t.bytes(srclen);
-            let kind = t.below(3);
+            let kind = t.below(4);
             let exact = op == 7;
             note!(cx, "{}(@ {:#x}, src kind {} len {}, count {}, run {})", if exact { "read_exact_volatile_from" } else { "read_volatile_from" }, a, kind, srclen, count, run);
             classify_access(&lay, a, count, cx);
@@ -215,7 +215,7 @@ pub fn step<S: Subject>(m: &S, model: &mut FlatModel, t: &mut Tape, cx: &mut Cx)
                     }
                     consumed = c.position() as usize;
                 }
-                _ => {
+                2 => {
                     use std::os::unix::fs::FileExt;
                     let mut f = memfd(0);
                     f.write_all_at(&data, 0).map_err(|e| e.to_string())?;
@@ -227,6 +227,20 @@ pub fn step<S: Subject>(m: &S, model: &mut FlatModel, t: &mut Tape, cx: &mut Cx)
                         r_ex = None;
                     }
                     consumed = f.seek(SeekFrom::Current(0)).map_err(|e| e.to_string())? as usize;
+                }
+                _ => {
+                    // a source that delivers at most `chunk` bytes per call (like a pipe or socket)
+                    let chunk = 1 + t.idx(7);
+                    let mut cr = ChunkReader { data: data.clone(), pos: 0, chunk, calls: 0 };
+                    cx.nt("chunked_source");
+                    if exact {
+                        r_ex = Some(m.read_exact_volatile_from(ga, &mut cr, count));
+                        r_up = None;
+                    } else {
+                        r_up = Some(m.read_volatile_from(ga, &mut cr, count));
+                        r_ex = None;
+                    }
+                    consumed = cr.pos;
                 }
             }
             if run == 0 {
@@ -255,7 +269,7 @@ pub fn step<S: Subject>(m: &S, model: &mut FlatModel, t: &mut Tape, cx: &mut Cx)
             // write_volatile_to / write_all_volatile_to
             let count = pick_len(t, run, cap);
             let want = (count as u128).min(run) as usize;
-            let kind = t.below(4);
+            let kind = t.below(5);
             let capc = match t.below(4) {
                 0 => want,
                 1 => want + 1 + t.idx(4),
@@ -315,6 +329,20 @@ pub fn step<S: Subject>(m: &S, model: &mut FlatModel, t: &mut Tape, cx: &mut Cx)
                     }
                     got = store[..pos].to_vec();
                     ensure!(store[pos..].iter().all(|b| *b == FILL), "Cursor sink written beyond its position");
+                    unlimited = false;
+                }
+                4 => {
+                    let chunk = 1 + t.idx(7);
+                    let mut cw = ChunkWriter { data: Vec::new(), cap: capc, chunk, calls: 0 };
+                    cx.nt("chunked_sink");
+                    if all {
+                        r_all = Some(m.write_all_volatile_to(ga, &mut cw, count));
+                        r_up = None;
+                    } else {
+                        r_up = Some(m.write_volatile_to(ga, &mut cw, count));
+                        r_all = None;
+                    }
+                    got = cw.data;
                     unlimited = false;
                 }
                 _ => {
